@@ -4,7 +4,8 @@
 
    Property level (from the statement of C17, independent of the code):
      ValidChain(<<v1..vn, r>>): v1 is a stored, undeleted, unexpired share claim; n = 0 asks for
-     the claim itself; hop 1 is exactly the claim's target; more hops need a transitive share and
+     the claim itself; hop 1 is exactly the claim's target - a share of a search has no target, so
+     NOTHING can be reached from it (only the claim itself); more hops need a transitive share and
      every further hop must be a GENUINE schema link of a stored blob: file/bytes parts
      (blobRef, bytesRef), directory "entries", static-set "members" and "mergeSets" (sub-sets of a
      large directory).  A ref that merely occurs in a non-link field (a claim value, a note, plain
@@ -66,7 +67,7 @@ LiveShare(W, t, s) == IsShare(W, s) /\ ~Deleted(W, s) /\ ~Expired(W, t, s)
 ValidChain(W, t, ch) ==
   /\ Len(ch) >= 1
   /\ LiveShare(W, t, ch[1])
-  /\ Len(ch) >= 2 => ch[2] = W[ch[1]].target
+  /\ Len(ch) >= 2 => W[ch[1]].target # 0 /\ ch[2] = W[ch[1]].target      \* no target (search share): no hop
   /\ Len(ch) >= 3 => W[ch[1]].transitive
   /\ \A i \in 2..(Len(ch) - 1) : StoredAt(W, ch[i]) /\ ch[i + 1] \in Links(W, ch[i])
 Served(W, t, ch) == ValidChain(W, t, ch) /\ StoredAt(W, Last(ch))
@@ -118,13 +119,14 @@ RECURSIVE Closure(_, _)
 Closure(W, S) == LET S2 == S \cup UNION {Links(W, x) : x \in {y \in S : StoredAt(W, y)}}
                  IN IF S2 = S THEN S ELSE Closure(W, S2)
 Reach(W, t, s) == IF ~(s \in Ids(W) /\ LiveShare(W, t, s)) THEN {}
+                  ELSE IF W[s].target = 0 THEN {s}
                   ELSE {s, W[s].target} \cup (IF W[s].transitive THEN Closure(W, {W[s].target}) ELSE {})
 Sound(W, t, ch) == Served(W, t, ch) => Last(ch) \in Reach(W, t, ch[1])
 RECURSIVE ExistsServed(_, _, _, _, _)
 ExistsServed(W, t, ch, b, k) ==
   \/ Last(ch) = b /\ Served(W, t, ch)
   \/ /\ k > 0 /\ StoredAt(W, Last(ch))
-     /\ \E x \in (IF Len(ch) = 1 THEN {W[ch[1]].target} ELSE Links(W, Last(ch))) :
+     /\ \E x \in (IF Len(ch) = 1 THEN {W[ch[1]].target} \ {0} ELSE Links(W, Last(ch))) :
            ExistsServed(W, t, Append(ch, x), b, k - 1)
 Complete(W, t) == \A s \in Ids(W) : \A b \in {x \in Reach(W, t, s) : StoredAt(W, x)} :
                      ExistsServed(W, t, <<s>>, b, Len(W))
@@ -144,6 +146,7 @@ PathClass(W, ch) ==
   IF \E i \in 1..Len(ch) : ch[i] \notin Ids(W) THEN "malformed"
   ELSE IF ~IsShare(W, ch[1]) THEN "no-share"
   ELSE IF Len(ch) = 1 THEN "itself"
+  ELSE IF W[ch[1]].target = 0 THEN "hop-from-search-share"
   ELSE IF ch[2] # W[ch[1]].target THEN (IF ch[2] \in Mentions(W, ch[1]) \cup Links(W, ch[1]) THEN "hop1-other-ref" ELSE "hop1-not-target")
   ELSE IF Len(ch) = 2 THEN "target"
   ELSE IF ~W[ch[1]].transitive THEN "beyond-nontransitive"
@@ -168,7 +171,7 @@ HandlerLoop(W, t, is, ch, i) ==              \* for i, br := range fetchChain
     ELSE IF ~W[s].stored THEN "shareFetchFailed"
     ELSE IF W[s].kind # "share" THEN "shareBlobInvalid"
     ELSE IF Expired(W, t, s) THEN "shareExpired"
-    ELSE IF Len(ch) > 1 /\ ch[2] # W[s].target THEN "shareTargetInvalid"
+    ELSE IF Len(ch) > 1 /\ ch[2] # W[s].target THEN "shareTargetInvalid"     \* a zero Target() equals no ref
     ELSE IF Len(ch) > 2 /\ ~W[s].transitive THEN "shareNotTransitive"
     ELSE HandlerLoop(W, t, is, ch, 2)
   ELSE IF i = Len(ch) THEN HandlerLoop(W, t, is, ch, i + 1)      \* case len(fetchChain)-1: "last one is fine"
